@@ -35,6 +35,16 @@ def run(chk, ctx):
     # rational arithmetic: exact and closed under every operator, the unary ones included (the model has no entry for
     # neg/pos/abs of a Rational: those three are decided by the Fraction oracle and the wrapped-method theorem)
     run_cases(chk, ctx, vd.gen_cases(chk.seed, n // 6, classes=(2,), ops=[1, 2, 3, 4, 5, 7, 9, 10, 11, 12]), 'rational')
+    # "integer arithmetic is the zero-place case": the class set up with arithmetic=integer -- with or without a
+    # precision option from the caller, which integer arithmetic overrides -- against the p=0 kernels and oracle
+    ints = vd.gen_cases(chk.seed + 1, n // 6, classes=(0,))
+    rng = vd.rng_for(chk.seed, 'c12-integer')
+    for c in ints:
+        c['p'] = 0
+        c['d'] = rng.choice([0, 0, -1, 2])
+        c['integer'] = rng.choice([('none',), ('precision', 0), ('precision', 3), ('precision', rng.randint(1, 12)), ('precision', '6')])
+    run_cases(chk, ctx, ints, 'integer')
+    chk.cov['integer_arithmetic'] = "%d operations on the class initialised with arithmetic=integer (caller precision none/0/N)" % len(ints)
     if ctx['tier'] == 'thorough':
         grid = list(vd.grid_cases(maxraw=40, ps=(0, 1, 2, 3)))
         run_cases(chk, ctx, grid, 'grid')
@@ -43,6 +53,7 @@ def run(chk, ctx):
 def replay(chk, payload):
     c = payload['case']
     c['A'], c['B'], c['C'] = tuple(c['A']), tuple(c['B']), tuple(c['C'])
+    if c.get('integer'): c['integer'] = tuple(c['integer'])
     i = vd.impl_eval(c)
     want = vd.oracle_c12(c, i)
     if want is None: want = vd.oracle_c12_rational(c, i)
